@@ -208,6 +208,11 @@ func (s *session) exec(op string) string {
 			status = "done " + s.lastErr
 		}
 		if s.lastErr == "" && !s.stopped {
+			// monitor C07: normal termination only after every delivered item was released and
+			// every release consumed
+			if n := totalInflight(s) + len(s.pending); n > 0 {
+				s.fail("C07 the discipline terminated normally although %d delivered item(s) are not released yet / their release was not consumed (in flight %d, releases not consumed %d)", n, totalInflight(s), len(s.pending))
+			}
 			// monitor C02/C07: normal termination - nothing written to a registered input
 			// may be left undelivered
 			for c := range s.chanPri {
